@@ -125,9 +125,14 @@ def e2e_oracle(raw):
                 if a < starts[(t, h)] and ri < b:
                     return 'poll_state_synchronize_rcu() of thread %s answered true at step %d while reader %s is still inside the section it entered at step %d, before start_poll_synchronize_rcu() was called at step %d' % (t, ri, rt, a, starts[(t, h)])
         elif (t, h) in seen_true: return 'handle %s of thread %s polled false after having polled true' % (h, t)
+    # completeness: when nothing can move any more (QUIESCENT: every thread has exited or sleeps) every handle must have completed - a handle that still polls
+    # false then has its worker callback queued on a helper that sleeps
+    if 'QUIESCENT' in raw:
+        m = re.search(r'^- finalpoll (\d+) 0$', raw, flags=re.M)
+        if m: return 'at quiescence (every reader has left, no thread can move) the last handle of thread %s still polls false: the worker callback is queued on a helper that sleeps - polling never completes' % m.group(1)
     return None
 
-E2E_PROGS = ['C0/()/SPPP', 'C0C1/(())/SPSPP']
+E2E_PROGS = ['C0/()/SPPPP', 'C0C1/(())/SPSPPP']
 def run_e2e(ctx):
     """(d) the abstraction of call_rcu used by scen_poll is not trusted alone: the same poll code runs on the real helper thread of src/urcu-call-rcu-impl.h and the
     real memb grace period.  Targeted family: the helper is frozen k steps into its cycle for an unrelated callback (before, inside and after its synchronize_rcu());
@@ -137,9 +142,9 @@ def run_e2e(ctx):
     if not impl: return
     cases = []
     for prog in E2E_PROGS[:1 if ctx.quick() else 2]:
-        for k in range(0, 240 if ctx.quick() else 400, 2 if ctx.quick() else 1):
-            for m in (60, 200):
-                cases.append((prog, '>0' + '3d' * k + '>1' + '>2' + '3d' * m + '>2' + '3d' * 200 + '>2' + '>1' + '3d' * 500 + '>2'))
+        for k in range(0, 240 if ctx.quick() else 400, 1):
+            for m in ((60,) if ctx.quick() else (60, 200)):
+                cases.append((prog, '>0' + '3d' * k + '>1' + '>2' + '3d' * m + '>2' + '3d' * 200 + '>2' + '>1' + '3d' * 700 + '>2' + '3d' * 300 + '>2'))
     n = len(cases) + (60 if ctx.quick() else 1500)
     while len(cases) < n:
         prog = ctx.rng.choice(E2E_PROGS); th = [str(i) for i in range(prog.count('/') + 3)]
@@ -151,7 +156,7 @@ def run_e2e(ctx):
         o = ('abnormal run: ' + raw[-300:]) if ('BUG ' in raw or 'TIMEOUT' in raw or 'ABORT' in raw or 'STEP LIMIT' in raw) else e2e_oracle(raw)
         if o:
             nor += 1
-            if nor <= 3: ctx.fail('oracle', 'poll on the real call_rcu helper: no early completion', o, concrete={'scenario': 'scen_callrcu', 'prog': p, 'schedule': s + tail, 'verdict': o})
+            if nor <= 3: ctx.fail('oracle', 'poll on the real call_rcu helper: no early completion, once true stays true, complete at quiescence', o, concrete={'scenario': 'scen_callrcu', 'prog': p, 'schedule': s + tail, 'verdict': o})
         if re.search(r'ret poll 1', raw) and re.search(r'ret poll 0', raw): distinct.add(hash(raw))
     ctx.cov['evaluations'] += len(cases); ctx.cov['distinct_nontrivial'] += len(distinct)
     ctx.cov['oracle_violations'] = ctx.cov.get('oracle_violations', 0) + nor
